@@ -112,6 +112,29 @@ INDEX_TRIAGE = {
 }
 
 
+def _same_length_copy(func, name: str, iterated: str, loop: ast.AST) -> bool:  # type: ignore[no-untyped-def]
+    """`name` is a local defined once as list(A) / A.copy() / A[:] / deepcopy(A) / [x] * len(A) and, up to the loop, neither
+    resized nor handed to anybody who could resize it"""
+    defs = [n for n in ast.walk(func.node) if isinstance(n, (ast.Assign, ast.AnnAssign)) and n.value is not None and unparse(n.targets[0] if isinstance(n, ast.Assign) else n.target) == name]
+    if len(defs) != 1:
+        return False
+    v = unparse(defs[0].value).replace(" ", "")
+    a = iterated.replace(" ", "")
+    if v not in (f"list({a})", f"{a}.copy()", f"{a}[:]", f"deepcopy({a})", f"copy({a})", f"deepcopy(list({a}))") and not (v.endswith(f"*len({a})") and v.startswith("[")):
+        return False
+    for n in ast.walk(func.node):
+        if getattr(n, "lineno", 0) <= defs[0].lineno or getattr(n, "lineno", 0) >= loop.lineno:  # type: ignore[attr-defined]
+            continue
+        if isinstance(n, ast.Call):
+            if isinstance(n.func, ast.Attribute) and isinstance(n.func.value, ast.Name) and n.func.value.id == name and n.func.attr in MUTATORS:
+                return False
+            if any(isinstance(x, ast.Name) and x.id == name for arg in list(n.args) + [k.value for k in n.keywords] for x in ast.walk(arg)):
+                return False
+        if isinstance(n, ast.Delete) and name in unparse(n):
+            return False
+    return True
+
+
 def r_index_space(ck: Checker) -> None:
     from ..core import moved_lookup
 
@@ -132,6 +155,8 @@ def r_index_space(ck: Checker) -> None:
                         into = unparse(sub.value)
                         ok = into == iterated
                         why = ""
+                        if not ok and isinstance(sub.value, ast.Name) and _same_length_copy(func, sub.value.id, iterated, loop):
+                            ok, why = True, f" (`{into}` is a copy of `{short(iterated, 30)}` of the same length that nothing resizes before the loop)"
                         if not ok:
                             hit = INDEX_TRIAGE.get((func.short, iterated, into))
                             if hit is not None:
@@ -203,6 +228,10 @@ def r_loop_state(ck: Checker) -> None:
                         recv_of_mut.add(id(base))
             consulted = [x for x in loads if id(x) not in recv_of_mut]
             if not mutated or not consulted:
+                continue
+            # a "seen" set (`if k in seen: continue ... seen.add(k)`) is loop-carried on purpose: GEN.memo-key judges it
+            par = {id(c): a for a in ast.walk(holder) for c in ast.iter_child_nodes(a)}
+            if all(isinstance(par.get(id(x)), ast.Compare) and len(par[id(x)].ops) == 1 and isinstance(par[id(x)].ops[0], (ast.In, ast.NotIn)) and par[id(x)].comparators[0] is x for x in consulted):  # type: ignore[union-attr]
                 continue
             n += 1
             ok = id(init) in inside
